@@ -119,6 +119,11 @@ class EventLog:
 # violations, replay files
 # ----------------------------------------------------------------------------
 
+def violation_flag_set() -> bool:
+  """True once some run of this check invocation has reported a violation."""
+  return os.path.exists('VIOLATION_FOUND')
+
+
 def make_violation(prop: str, oracle: str, message: str, **detail) -> dict:
   v = {'property': prop, 'oracle': oracle, 'message': message}
   v.update(detail)
